@@ -188,14 +188,23 @@ int main (int argc, char *argv[]) {
         }
         total_size += zck_get_chunk_comp_size(tgt_idx);
     }
+    /* Sizes and counts come straight from the file, so don't divide by them
+     * without checking */
+    ssize_t chunk_count = zck_get_chunk_count(zck_tgt);
+    ssize_t dl_pct = 0;
+    ssize_t match_pct = 0;
+    if(total_size > 0)
+        dl_pct = dl_size * 100 / total_size;
+    if(chunk_count > 0)
+        match_pct = matched_chunks * 100 / chunk_count;
     printf("Would download in total %lli of %lli bytes (%lli%%), %lli in the header and the rest in %lli chunks\n",
            (long long) dl_size, (long long) total_size,
-           (long long) (dl_size * 100 / total_size),
+           (long long) dl_pct,
            (long long) header_size,
-           (long long) (zck_get_chunk_count(zck_tgt) - matched_chunks));
+           (long long) (chunk_count - matched_chunks));
     printf("Matched %lli of %llu (%lli%%) chunks\n", (long long) matched_chunks,
-           (long long unsigned) zck_get_chunk_count(zck_tgt),
-           (long long) (matched_chunks * 100 / zck_get_chunk_count(zck_tgt)));
+           (long long unsigned) chunk_count,
+           (long long) match_pct);
 
     zck_free(&zck_tgt);
     zck_free(&zck_src);
